@@ -161,9 +161,37 @@ func edgeAtom(iff *ssa.If, idx int) (string, bool) {
 				}
 				return "nonnil:" + ir.RootName(p.Root), t
 			}
-			// comparison with boolean constant
-			if c, ok := x.Y.(*ssa.Const); ok && c.Value != nil && types.Identical(c.Type().Underlying(), types.Typ[types.Bool]) {
-				_ = c
+			// comparison of a call result / field with a non-nil constant: "eq:<what>:<const>"
+			var cst *ssa.Const
+			var other ssa.Value
+			if c, ok := x.Y.(*ssa.Const); ok && c.Value != nil {
+				cst, other = c, x.X
+			} else if c, ok := x.X.(*ssa.Const); ok && c.Value != nil {
+				cst, other = c, x.Y
+			}
+			if cst != nil {
+				t := truth
+				if x.Op == token.NEQ {
+					t = !t
+				}
+				what := ""
+				switch o := other.(type) {
+				case *ssa.Call:
+					what = calleeShort(o.Common())
+				case *ssa.UnOp:
+					if o.Op == token.MUL {
+						what = ir.PathOf(o.X).Class()
+					}
+				case *ssa.Field:
+					what = ir.PathOf(o).Class()
+				case *ssa.Extract:
+					if c2, ok := o.Tuple.(*ssa.Call); ok {
+						what = fmt.Sprintf("%s#%d", calleeShort(c2.Common()), o.Index)
+					}
+				}
+				if what != "" {
+					return "eq:" + what + ":" + cst.Value.ExactString(), t
+				}
 			}
 		}
 	case *ssa.Call:
@@ -181,6 +209,9 @@ func edgeAtom(iff *ssa.If, idx int) (string, bool) {
 		}
 		if ta, ok := x.Tuple.(*ssa.TypeAssert); ok {
 			return "type:" + namedName(ta.AssertedType), truth
+		}
+		if lk, ok := x.Tuple.(*ssa.Lookup); ok && lk.CommaOk && x.Index == 1 {
+			return "lookup:" + ir.PathOf(lk.X).Class(), truth
 		}
 	}
 	return "", truth
